@@ -232,6 +232,16 @@ def oracle_triple(fn, np, n, kp, kq, kr):
                     return "raised %s when a one-hot distribution is passed with dtype %s" % (type(e).__name__, np.dtype(dt).name)
                 if abs(v - vals[want]) > TOL or abs(w - vals[want]) > TOL:
                     return "H=%r / %r when a one-hot distribution is passed as a %s array (first / second argument), %r as float64" % (v, w, np.dtype(dt).name, vals[want])
+    # ... and when BOTH vectors are 0/1 indicator vectors, as arrays of one small element type (bool, int8, uint8, int16, int32)
+    if all(x in (0.0, 1.0) for x in p) and all(x in (0.0, 1.0) for x in q):
+        for dt in (bool, np.int8, np.uint8, np.int16, np.int32):
+            try:
+                with np.errstate(all="ignore"):
+                    v = float(fn(np.array(p).astype(dt), np.array(q).astype(dt), n))
+            except Exception as e:  # noqa
+                return "raised %s when both one-hot distributions are passed with dtype %s" % (type(e).__name__, np.dtype(dt).name)
+            if abs(v - vals["pq"]) > TOL:
+                return "H=%r when both indicator vectors are %s arrays, %r as float64" % (v, np.dtype(dt).name, vals["pq"])
     if abs(vals["pq"] - vals["qp"]) > TOL:
         return "not symmetric: H(p,q)=%r H(q,p)=%r" % (vals["pq"], vals["qp"])
     if vals["pr"] > vals["pq"] + vals["qr"] + TOL:
